@@ -7,6 +7,7 @@ from pyvc.sym import (Sym, SInt, SReal, SBool, SSeq, CList, CDict, SObj, SRange,
                       eq, compare, fresh, wrap, UNDEF)
 from pyvc import gen as G
 from contracts.obsmodel import Layout, ObsSpec, _ObsOn, mk_obs, A, D, chain, names_of
+import contracts.obs_kernel  # noqa: F401  (callee contracts)
 
 REL = "pyerrors/obs.py"
 
@@ -149,4 +150,222 @@ contract(
     slice_note="nested function of derived_observable; its free variable new_idl_d (the merged configuration lists of the "
                "enclosing call) is a parameter of the contract",
     note="ensembles are grouped by the text before '|' as the property states; operand / result chain layouts enumerated",
+)
+
+
+# ---------------------------------------------------------------------------------------------------
+# derived_observable, scalar mode: the accumulation loop over the inputs (statement slice)
+#   C01: "its fluctuation on every Monte-Carlo configuration equals the sum over the inputs of df/d(input) times that input's
+#         fluctuation on the same configuration number of the same replica; an input not measured on some of them contributes
+#         zero there and is up-weighted by (union size / own size), and by (ensemble size / size of the replicas it has)"
+
+import ast  # noqa: E402
+from pyvc.specs import IdlRange, IdlList  # noqa: E402
+from pyvc.interp import Closure, Env  # noqa: E402
+
+ACC_LAYOUTS = {
+    # key: (chains of operand 0, chains of operand 1, chains of the result with the kind of the merged list)
+    "same-chain-rr": ([("A|r1", "range")], [("A|r1", "range")], [("A|r1", "range")]),
+    "same-chain-ll": ([("A|r1", "list")], [("A|r1", "list")], [("A|r1", "list")]),
+    "same-chain-rl": ([("A|r1", "range")], [("A|r1", "list")], [("A|r1", "range")]),
+    "lacks-replica": ([("A|r1", "list"), ("A|r2", "range")], [("A|r1", "list")], [("A|r1", "list"), ("A|r2", "range")]),
+    "two-ensembles": ([("A|r1", "range")], [("B|r1", "list")], [("A|r1", "range"), ("B|r1", "list")]),
+    "single-operand": ([("A|r1", "list")], None, [("A|r1", "list")]),
+}
+
+
+def _acc_loop(mod, fnode):
+    loops = [n for n in ast.walk(fnode) if isinstance(n, ast.For)]
+    loops.sort(key=lambda n: (n.lineno, n.col_offset))
+    for lp in loops:
+        it = lp.iter
+        if isinstance(it, ast.Call) and isinstance(it.func, ast.Attribute) and it.func.attr == "ndenumerate" and \
+                isinstance(it.args[0], ast.Name) and it.args[0].id == "data":
+            return [lp]
+    from pyvc.sym import CheckerError
+    raise CheckerError("contract no longer binds: `for j_obs, obs in np.ndenumerate(data)` not found in derived_observable")
+
+
+class AccCase(Spec):
+    def __init__(self, which):
+        self.which = which
+
+    def variants(self):
+        return [(k, _AccOn(k, self.which)) for k in ACC_LAYOUTS]
+
+
+class _AccOn(Spec):
+    def __init__(self, key, which):
+        self.key, self.which = key, which
+        self.l0, self.l1, self.lr = ACC_LAYOUTS[key]
+
+    def make(self, name, ctx, shape=None):
+        w = self.which
+        if w == "data":
+            ops = [mk_obs("op0", Layout(self.l0), ctx, None)]
+            if self.l1 is not None:
+                ops.append(mk_obs("op1", Layout(self.l1), ctx, None))
+            return CList(ops, "ndarray")
+        if w == "new_idl_d":
+            d = CDict()
+            for cn, kind in self.lr:
+                d.d[cn] = (IdlRange(5) if kind == "range" else IdlList(5)).make("new." + cn, ctx, None)
+            return d
+        if w == "deriv":
+            return CList([SReal(z3.Real(fresh("deriv%d" % j))) for j in range(1 if self.l1 is None else 2)], "ndarray")
+        raise AssertionError(w)
+
+
+def _scale_closure(name, ctx, shape=None):
+    return None      # bound in requires (needs new_idl_d); see _acc_bind
+
+
+def _keys(d):
+    return list(d.d.keys()) if isinstance(d, CDict) else list(d.keys())
+
+
+def _ops(data):
+    return list(data.items) if isinstance(data, CList) else list(data)
+
+
+def _sf(obs, new, cn):
+    """the missing-replica factor of the contract of _compute_scalefactor_missing_rep, for the chain cn of operand obs"""
+    m = ens(cn)
+    have = [n for n in names_of(obs) if ens(n) == m]
+    allr = [n for n in _keys(new) if ens(n) == m]
+    if 0 < len(have) < len(allr):
+        return sum_len(new, allr) / sum_len(new, have)
+    return 1
+
+
+def _contrib(obs, new, cn, dj, k, i):
+    """contribution of operand obs on configuration new[cn][k], given that its i-th configuration is that one"""
+    ni, oi = D(new, cn), chain(obs, cn, "idl")
+    return dj * (At(chain(obs, cn, "deltas"), i) * Len(ni) / Len(oi) * _sf(obs, new, cn))
+
+
+def _acc_post(a, r):
+    ops = _ops(a.data)
+    new = a.new_idl_d
+    nd = r.new_deltas
+    out = {"chains": sorted(_keys(nd)) == sorted(_keys(new))}
+    for cn in _keys(new):
+        ni = D(new, cn)
+        res = D(nd, cn)
+        if res is UNDEF:
+            out["present.%s" % cn] = False
+            continue
+        have = [j for j, o in enumerate(ops) if cn in names_of(o)]
+        out["len.%s" % cn] = Len(res) == Len(ni)
+        if len(have) == 1:
+            j = have[0]
+            o = ops[j]
+            oi = chain(o, cn, "idl")
+            out["hit.%s" % cn] = ForAll(0, Len(ni), lambda k: ForAll(0, Len(oi), lambda i: Implies(
+                At(oi, i) == At(ni, k), eq(At(res, k), _contrib(o, new, cn, At(a.deriv, j), k, i)))))
+            out["miss.%s" % cn] = ForAll(0, Len(ni), lambda k: Implies(ForAll(0, Len(oi), lambda i: At(oi, i) != At(ni, k)), eq(At(res, k), 0)))
+        else:
+            o0, o1 = ops[0], ops[1]
+            i0l, i1l = chain(o0, cn, "idl"), chain(o1, cn, "idl")
+            d0, d1 = At(a.deriv, 0), At(a.deriv, 1)
+            m0 = lambda k: ForAll(0, Len(i0l), lambda i: At(i0l, i) != At(ni, k))
+            m1 = lambda k: ForAll(0, Len(i1l), lambda i: At(i1l, i) != At(ni, k))
+            out["both.%s" % cn] = ForAll(0, Len(ni), lambda k: ForAll(0, Len(i0l), lambda i: ForAll(0, Len(i1l), lambda ii: Implies(
+                And(At(i0l, i) == At(ni, k), At(i1l, ii) == At(ni, k)),
+                eq(At(res, k), _contrib(o0, new, cn, d0, k, i) + _contrib(o1, new, cn, d1, k, ii))))))
+            out["only0.%s" % cn] = ForAll(0, Len(ni), lambda k: ForAll(0, Len(i0l), lambda i: Implies(
+                And(At(i0l, i) == At(ni, k), m1(k)), eq(At(res, k), _contrib(o0, new, cn, d0, k, i)))))
+            out["only1.%s" % cn] = ForAll(0, Len(ni), lambda k: ForAll(0, Len(i1l), lambda ii: Implies(
+                And(At(i1l, ii) == At(ni, k), m0(k)), eq(At(res, k), _contrib(o1, new, cn, d1, k, ii)))))
+            out["none.%s" % cn] = ForAll(0, Len(ni), lambda k: Implies(And(m0(k), m1(k)), eq(At(res, k), 0)))
+    return out
+
+
+def _acc_native(args):
+    """the slice has no entry point: run the real derived_observable on the operands with a linear function whose gradient
+    is `deriv`; its result's fluctuations are the new_deltas of the loop"""
+    from pyvc.driver import Namespace
+    from pyvc.native import repo_module
+    pe = repo_module("pyerrors.obs")
+    d = [float(x) for x in args["deriv"]]
+    res = pe.derived_observable(lambda x, **kw: sum(di * xi for di, xi in zip(d, x)), list(args["data"]), man_grad=d)
+    return Namespace({"new_deltas": dict(res.deltas)})
+
+
+def _acc_gen(rng, case):
+    import numpy as np
+    from pyvc.native import repo_module
+    from contracts.obsmodel import native_obs_from
+    pe = repo_module("pyerrors.obs")
+    l0, l1, lr = ACC_LAYOUTS[case["data"]]
+    base = {cn: G.idl(rng, "range", rng.randint(8, 12)) for cn, _ in lr}
+
+    def mk(layout):
+        chains = {}
+        for cn, kind in layout:
+            sub = G.sub_idl(rng, base[cn], kind)
+            tries = 0
+            while (sub is None or len(sub) < 5) and tries < 40:
+                sub = G.sub_idl(rng, base[cn], kind)
+                tries += 1
+            if sub is None or len(sub) < 5:
+                sub = base[cn] if kind == "range" else list(base[cn])[:-1] + [base[cn][-1] + 1]
+            if kind == "list" and len(set(sub[j + 1] - sub[j] for j in range(len(sub) - 1))) == 1:
+                sub = list(sub)
+                sub[-1] += 1
+            chains[cn] = (sub, list(G.reals(rng, len(sub)) + 1.0))
+        return native_obs_from({"chains": chains})
+    ops = [mk(l0)] + ([mk(l1)] if l1 is not None else [])
+    new = {}
+    for cn, _ in lr:
+        new[cn] = pe._merge_idx([o.idl[cn] for o in ops if cn in o.idl])
+    return {"data": ops, "new_idl_d": new, "deriv": [rng.choice([1.0, -2.0, 0.5, 3.0]) for _ in ops], "new_deltas": {}, "new_grad": {},
+            "i_val": (), "_compute_scalefactor_missing_rep": None}
+
+
+def _acc_requires(a):
+    from contracts.obs_kernel import subset
+    out = {}
+    for j, o in enumerate(_ops(a.data)):
+        for cn in names_of(o):
+            out["merged.%d.%s" % (j, cn)] = subset(chain(o, cn, "idl"), D(a.new_idl_d, cn))
+    return out
+
+
+class _ScaleClosureSpec(Spec):
+    """the real nested function _compute_scalefactor_missing_rep, closed over the new_idl_d parameter (bound lazily)"""
+
+    def make(self, name, ctx, shape=None):
+        return _LazyClosure()
+
+
+class _LazyClosure:
+    pass
+
+
+def _acc_execute_hook(interp, mod, fnode, args):
+    """bind the nested function to the live-in new_idl_d before the slice runs"""
+    nested = mod.functions.get("derived_observable::_compute_scalefactor_missing_rep")
+    env = Env(None)
+    env.set("new_idl_d", args["new_idl_d"])
+    args["_compute_scalefactor_missing_rep"] = Closure(nested, env, "_compute_scalefactor_missing_rep")
+
+
+contract(
+    REL + "::derived_observable", name=REL + "::derived_observable[accumulation, scalar mode]", props=["C01"],
+    slice=_acc_loop,
+    params=dict(data=AccCase("data"), new_idl_d=AccCase("new_idl_d"), deriv=AccCase("deriv"),
+                new_deltas=Custom(lambda n, c, s: CDict()), new_grad=Custom(lambda n, c, s: CDict()),
+                i_val=Const(()), _compute_scalefactor_missing_rep=_ScaleClosureSpec()),
+    cases_filter=lambda case: case["data"] == case["new_idl_d"] == case["deriv"],
+    inline=[REL + "::Obs.mc_names", REL + "::Obs.cov_names", REL + "::Obs.covobs"],
+    requires=_acc_requires,
+    pre_execute=_acc_execute_hook,
+    writes=("new_deltas", "new_grad"),
+    ensures=_acc_post,
+    native_call=_acc_native, gen=_acc_gen, crosscheck=False, refute=False,
+    slice_note="the loop `for j_obs, obs in np.ndenumerate(data)` of the scalar branch; live-in: data (1 or 2 observables on an "
+               "enumerated chain layout), deriv (symbolic), new_idl_d (symbolic merged lists containing every operand's list), empty "
+               "new_deltas / new_grad; the nested _compute_scalefactor_missing_rep is the real nested function bound to new_idl_d",
+    note="covariance inputs are not part of these layouts (gradient accumulation not decided)",
 )
